@@ -286,8 +286,34 @@ impl RandomDirector {
             }
             let v = self.p.ska.clone();
             let ska = self.pick(&v);
-            if ska > 0 {
+            if ska == 65535 {
+                // an explicit Server Keep Alive of zero: keep-alive is off whatever was configured
+                props.push(Prop { id: 0x13, n: 0, s: vec![], t: vec![] });
+            } else if ska > 0 {
                 props.push(Prop { id: 0x13, n: ska as u64, s: vec![], t: vec![] });
+            }
+            // properties the client has no use for, anywhere among the others (a decoder that
+            // confuses two of them shows)
+            if self.chance(0.3) {
+                props.push(Prop { id: 0x22, n: self.rng.gen_range(0..40), s: vec![], t: vec![] });
+            }
+            if self.chance(0.15) {
+                props.push(Prop { id: 0x25, n: self.rng.gen_range(0..2), s: vec![], t: vec![] });
+            }
+            if self.chance(0.15) {
+                props.push(Prop { id: 0x28, n: 1, s: vec![], t: vec![] });
+            }
+            if self.chance(0.1) {
+                props.push(Prop { id: 0x1F, n: 0, s: b"welcome".to_vec(), t: vec![] });
+            }
+            if self.chance(0.1) {
+                props.push(Prop { id: 0x1A, n: 0, s: b"resp/info".to_vec(), t: vec![] });
+            }
+            if self.chance(0.5) {
+                for i in (1..props.len()).rev() {
+                    let j = self.rng.gen_range(0..=i);
+                    props.swap(i, j);
+                }
             }
             if self.p.assign_client_id && self.chance(0.3) {
                 props.push(Prop { id: 0x12, n: 0, s: b"assigned-id".to_vec(), t: vec![] });
